@@ -214,6 +214,76 @@ def label_check(case):
     return Res(v, o=(variant, top > 0), tr=3)
 
 
+# ------------------------------------------------------------------ (d2) outside labels anywhere on the probe: the inside channels are still destriped
+def scatter_cases(tier, seed):
+    pats = [[200], [100, 250], [0], [383], [5, 6, 7, 300], list(range(360, 384)) + [150], list(range(0, 10)) + [380]]
+    return [(tab, variant, pi) for tab in ("NP1", "NP2") for variant in ("kfilt", "car") for pi in range(len(pats))], pats
+
+
+def _scatter_cases(tier, seed):
+    return scatter_cases(tier, seed)[0]
+
+
+def scatter_check(case):
+    tab, variant, pi = case
+    pats = scatter_cases("quick", 0)[1]
+    h = _h(tab)
+    fs, n = 30000, 1500
+    rng = np.random.default_rng([SEED[0] + 43, pi])
+    S = _pulse(n, fs, 3, "ap", rng)
+    x = skewed(S, h["sample_shift"], n)
+    x = x / np.sqrt(np.mean(x[0] ** 2)) * 100e-6
+    labels = np.zeros(384)
+    labels[pats[pi]] = 3
+    out = voltage.destripe(x.copy(), fs, h=h, neuropixel_version=_version(tab), k_filter=(variant == "kfilt"), channel_labels=labels.copy())
+    sos = scipy.signal.butter(N=3, Wn=300 / fs * 2, btype="highpass", output="sos")
+    ref = scipy.signal.sosfiltfilt(sos, x)
+    inside = labels != 3
+    # per channel attenuation on the inside channels
+    num = np.sqrt(np.mean(out[inside] ** 2, axis=1))
+    den = np.sqrt(np.mean(ref[inside] ** 2, axis=1))
+    db = 20 * np.log10(num / den + 1e-300)
+    v = []
+    if np.max(db) > -40:
+        ch = np.flatnonzero(inside)[int(np.argmax(db))]
+        v.append(("labels:scattered-outside", "%s %s outside-brain labels at %r: inside channel %d keeps the common disturbance (%.1f dB); %d inside channels above -40 dB"
+                  % (tab, variant, pats[pi][:6], ch, float(np.max(db)), int(np.sum(db > -40)))))
+    return Res(v, o=(tab, variant), tr=1)
+
+
+# ------------------------------------------------------------------ (b2) arrays longer than the file batch size
+def long_cases(tier, seed):
+    return [(variant, ns) for variant in ("kfilt", "car") for ns in ((65536, 65537, 70536) if tier == "quick" else (65535, 65536, 65537, 70536, 131072, 131073, 140001))]
+
+
+def long_check(case):
+    variant, ns = case
+    nc = 32
+    h0 = _h("NP1")
+    h = {k: np.asarray(vv)[:nc] for k, vv in h0.items()}
+    fs = 30000
+    rng = np.random.default_rng([SEED[0] + 47, ns])
+    t = np.arange(ns)
+    v = []
+    # three bursts of a common 1 kHz disturbance: near the start, in the middle, and in the tail of the array
+    centres = [3000, ns // 2, ns - 2500]
+    s = np.zeros(ns)
+    for c in centres:
+        s += np.exp(-0.5 * ((t - c) / 300.0) ** 2) * np.sin(2 * np.pi * 1000 * t / fs)
+    S = np.fft.rfft(s)
+    x = skewed(S, h["sample_shift"], ns) * 100e-6
+    k_kwargs = {"ntr_pad": 8, "ntr_tap": 0, "lagc": int(fs / 10), "butter_kwargs": {"N": 3, "Wn": 0.1, "btype": "highpass"}}
+    out = voltage.destripe(x.copy(), fs, h=h, neuropixel_version=1, k_filter=(variant == "kfilt"), k_kwargs=k_kwargs)
+    sos = scipy.signal.butter(N=3, Wn=300 / fs * 2, btype="highpass", output="sos")
+    ref = scipy.signal.sosfiltfilt(sos, x)
+    for c, name in zip(centres, ("start", "middle", "tail")):
+        w = slice(c - 1500, c + 1500)
+        db = 20 * np.log10(np.sqrt(np.mean(out[:, w] ** 2)) / np.sqrt(np.mean(ref[:, w] ** 2)) + 1e-300)
+        if not db <= -40:
+            v.append(("stripe:long-array:%s" % name, "%s on %d channels x %d samples: the burst in the %s of the array (sample %d) is attenuated by %.1f dB only" % (variant, nc, ns, name, c, db)))
+    return Res(v, o=(variant, ns > 65536), tr=1)
+
+
 # ------------------------------------------------------------------ (e) referencing, grouping, gain control
 def car_cases(tier, seed):
     return [list(a) for a in itertools.product(range(3), repeat=2)]
@@ -337,6 +407,8 @@ CHECK = {
         Clause("stripes", "destripe / destripe_lfp attenuate common disturbances by >= 40 dB", cases=stripe_cases, check=stripe_check, setup=_setup),
         Clause("spikes", "a local spike keeps >= 90 % of its amplitude at every depth", cases=spike_cases, check=spike_check, setup=_setup),
         Clause("labels", "outside-brain rows are excluded from the spatial filter", cases=label_cases, check=label_check, setup=_setup),
+        Clause("labels-anywhere", "outside-brain labels at arbitrary positions: every inside channel is still destriped", cases=_scatter_cases, check=scatter_check, setup=_setup),
+        Clause("long-arrays", "arrays around and beyond 65536 samples: bursts at the start, middle and tail are attenuated", cases=long_cases, check=long_check, setup=_setup),
         Clause("car", "referencing: zero median/mean per group for all groupings", cases=car_cases, check=car_check, setup=_setup),
         Clause("groups", "kfilt / fk with collections = each group alone with the same settings", cases=group_cases, check=group_check, setup=_setup),
         Clause("agc", "gain control: data x gain = input", cases=agc_cases, check=agc_check, setup=_setup),
